@@ -75,6 +75,7 @@ type sengine struct {
 	onIf       func(p *spath, fr *sframe, x *ssa.If, cond iv) (stop bool, val iv, note string)
 	param      func(fn *ssa.Function, prm *ssa.Parameter) (iv, bool)
 	builtin    func(p *spath, fr *sframe, call *ssa.Call, name string, args []iv) (iv, bool)
+	lookup     func(p *spath, fr *sframe, x *ssa.Lookup, m, key iv) (iv, bool)
 	stopBlocks map[*ssa.BasicBlock]bool // a path of the function under analysis ends when it enters one of these
 	outcomes   []soutcome
 	budget     int
@@ -413,6 +414,12 @@ func (e *sengine) step(p *spath, fr *sframe, in ssa.Instruction) {
 	case *ssa.Extract:
 		if t := e.val(fr, x.Tuple); t.k == 'u' && x.Index < len(t.tup) {
 			fr.vals[x] = t.tup[x.Index]
+		}
+	case *ssa.Lookup:
+		if e.lookup != nil {
+			if r, ok := e.lookup(p, fr, x, e.val(fr, x.X), e.val(fr, x.Index)); ok {
+				fr.vals[x] = r
+			}
 		}
 	case *ssa.TypeAssert:
 		if e.typeAssert != nil {
